@@ -76,7 +76,7 @@ def ErrKind (m : Nat) (e : Exn) (o : Outcome) (w : World) : Prop :=
   o.ok = false ∧ o.lastClass = w.rs.lastClass ∧
   ((e.isAbort = true ∧ o.stop = some .aborted) ∨
    ((∃ f, e = .libExhausted f ∧ f.lastClass = w.rs.lastClass) ∧ o.stop ≠ some .aborted) ∨
-   (OpExn e ∧ o.stop ≠ some .aborted) ∨
+   (OpExn e ∧ w.rs.lastExc = some e ∧ o.stop ≠ some .aborted) ∨
    (e = .libRuntimeError ∧ m = 0))
 
 theorem ErrKind.mono {m : Nat} {e : Exn} {o : Outcome} {w : World} (h : ErrKind 1 e o w) : ErrKind m e o w := by
@@ -254,7 +254,8 @@ theorem deliver_rel {cfg : Cfg} (tl : Bool) {a : Nat} {o : AOutcome} {r re : RSt
       simp only [determineAction, hdec, deliverCall, Bool.false_eq_true, if_false, he1]
       simp only [bind_run, buildOutcome_run, pure_run, throw_run]
       obtain ⟨s, hs, hsa⟩ := hs2
-      refine ⟨hπ, ?_, rfl, by simp [hre, hr], Or.inr (Or.inr (Or.inl ⟨h4, by simp [hre, hs, hsa]⟩))⟩
+      refine ⟨hπ, ?_, rfl, by simp [hre, hr],
+        Or.inr (Or.inr (Or.inl ⟨h4, by rw [hr]; exact h3, by simp [hre, hs, hsa]⟩))⟩
       rw [dr_plain h4.1]
       simp [hre, h1, h3]
   | success => exact absurd hdec hf.notSuccess
